@@ -1,4 +1,5 @@
 import TinysetModel.Proofs.TotalSites
+import TinysetModel.Proofs.Total32Insert
 import TinysetModel.Proofs.Plain2
 /-! C14 — allocation failure is contained.
 What a theorem about the functional model can and cannot say.  In the model an operation returns a new
@@ -11,9 +12,9 @@ there are exactly two such places, and the theorems below are the facts that mak
     although its representation (the placeholder word) differs.
  2. inline → heap switch (and every other rebuild): the new block is assigned first and then refilled.
     `refill_never_grows_u64`: for the SetU64 configuration the refill only takes non-growing steps, i.e. it
-    requests no further block, so there is no allocation after the assignment.  For SetU32 this is false
-    for one growth site (`C20.regrow_can_nest_u32`), where a nested growth allocates while the local new set is
-    still a local — the caller-visible set is assigned only after the loop; the harness exercises that path.
+    requests no further block, so there is no allocation after the assignment.  `refill_never_grows_u32`: the
+    same for SetU32, whose rebuild sites (with the repaired regrowth `cap + 1 + cap / 8 + r % cap`) all create
+    tables that keep more than 1/16 of their buckets empty throughout the refill (`RefillGoodS`).
 Everything else about this property — that the code panics rather than continuing, that unwinding frees the
 locals, that nothing leaks — is decided by fault injection in the harness (every allocation point of every
 operation of every history prefix), not by theorems. -/
@@ -39,6 +40,13 @@ theorem refill_never_grows_u64 (g : Rng D) (rec : Ins D) (hrec : RecOK cfg64 rec
     ∃ r' d', insertAll (insertStep cfg64 g rec) r xs d = .ok (r', d') ∧ RefillGood cfg64 V r' :=
   insertAll_total cfg64_ok rfl g rec hrec xs r d gd hxs
 
+/-- SetU32: the same, for the refill invariant with the 1/16 room rule (`RefillGoodS`, established by every
+    rebuild site of `insert`, see `Proofs/Total32Sites.lean`, `Proofs/Total32Insert.lean`) -/
+theorem refill_never_grows_u32 (g : Rng D) (rec : Ins D) (hrec : RecOK cfg32 rec) {V : List Nat} (xs : List Nat)
+    (r : Rp) (d : D) (gd : RefillGoodS cfg32 V r) (hxs : ∀ x ∈ xs, x ∈ V ∧ x < 2 ^ cfg32.W) :
+    ∃ r' d', insertAll (insertStep cfg32 g rec) r xs d = .ok (r', d') ∧ RefillGoodS cfg32 V r' :=
+  insertAll_totalS cfg32_ok g rec hrec xs r d gd hxs
+
 /-- SetU64: an insert always returns a correct result when no allocation fails (the baseline that the
     fault-injection runs perturb) -/
 theorem insert_returns_u64 (g : Rng D) {r : Rp} (wf : WF cfg64 r) (e : Nat) (he : e < 2 ^ 64)
@@ -47,3 +55,5 @@ theorem insert_returns_u64 (g : Rng D) {r : Rp} (wf : WF cfg64 r) (e : Nat) (he 
   insert_total_correct_u64 g wf e he hsize d
 
 end C14
+
+#print axioms C14.refill_never_grows_u32
